@@ -39,5 +39,5 @@ var pending = func() []string {
 
 // stillPending lists the planned properties whose check is not claimed yet.
 var stillPending = map[string]bool{
-	"C09": true, "C10": true, "C15": true, "C16": true,
+
 }
